@@ -47,13 +47,13 @@ def gen_case(streams, tier):
     if kind == 'word':
         cfg = gen.make_cfg(nets=(3, 16), class_pool=['bit', 'small', 'mid', 'w64'],
                            dup_prob=0.25, dead_frac=0.3, const_reg_prob=0.3, const_bias=0.25,
-                           computed_const_prob=0.5,
+                           computed_const_prob=0.5, dup_mem_name_prob=0.3,
                            mem_wide_aw=0.0, consts=(1, 4), regs=(0, 4))
     else:
         cfg = gen.make_cfg(nets=(2, 9), classes=g.choice([['bit', 'small'], ['bit']]),
                            max_mul_width=4, dup_prob=0.25, dead_frac=0.3, const_reg_prob=0.3,
                            const_bias=0.3, mem_wide_aw=0.0, mem_aw=(1, 3), rom_aw_max=3,
-                           consts=(1, 4), regs=(0, 3), mems=(0, 1), max_concat=16)
+                           consts=(1, 4), regs=(0, 3), mems=(0, 2), max_concat=16, dup_mem_name_prob=0.3)
     script = gen.gen_script(g, cfg)
     ncyc = streams['inputs'].randint(2, 8)
     seq = [g.choice(PASSES) for _ in range(g.choice([1, 1, 2, 3, 4]))]
@@ -73,6 +73,9 @@ def gen_case(streams, tier):
         'state_seed': g.getrandbits(32),
         'wb': g.choice(['dut', 'other']),
         'stage': stage,
+        # the design reaches the passes with its Outputs driven by gates directly (the public
+        # direct_connect_outputs pass was run on it first)
+        'prep_dco': g.random() < 0.3,
         'sched': world.gen_sched(streams, with_iter=False),
     }
 
@@ -150,6 +153,16 @@ def run(case, res):
     except (pyrtl.PyrtlError, pyrtl.PyrtlInternalError):
         res.probes.hit('kind_refused:' + case['kind'])
         return None
+    if case.get('prep_dco'):
+        try:
+            with transforms.quiet():
+                pyrtl.passes.direct_connect_outputs(blk)
+            if transforms.sanity(blk):
+                raise pyrtl.PyrtlError('prep')
+            res.probes.hit('outputs_driven_by_gates_directly')
+        except (pyrtl.PyrtlError, pyrtl.PyrtlInternalError):
+            res.probes.hit('prep_refused')
+            return None
     other = pyrtl.Block()
     pyrtl.set_working_block(other if case['wb'] == 'other' else blk, no_sanity_check=True)
     res.probes.hit('kind:' + case['kind'])
